@@ -122,6 +122,107 @@ class Recorder(httputil.HTTPServerConnectionDelegate):
         self.closed_conns += 1
 
 
+class WrapMsg(RecMsg):
+    """Recording wrapper around the message delegate of a real tornado.web.Application: records the
+    callbacks (same projection as RecMsg) and forwards them to the framework's own delegate."""
+
+    def __init__(self, rec, conn, inner):
+        RecMsg.__init__(self, rec, conn)
+        self.inner = inner
+
+    def headers_received(self, start_line, headers):
+        try:
+            ret = self.inner.headers_received(start_line, headers)
+        except Exception:
+            self.refused = True
+            raise
+        self.h = {"sl": [b2l(start_line.method), b2l(start_line.path), b2l(start_line.version)], "live": headers}
+        self.rec.order.append(self)
+        return ret
+
+    def data_received(self, chunk):
+        self.nd += 1
+        self.body += chunk
+        return self.inner.data_received(chunk)
+
+    def finish(self):
+        self.end += "F"
+        return self.inner.finish()
+
+    def on_connection_close(self):
+        if not (self.refused and self.h is None):
+            self.end += "C"
+        return self.inner.on_connection_close()
+
+
+class WrapApp(httputil.HTTPServerConnectionDelegate):
+    def __init__(self, app):
+        self.app = app
+        self.order = []
+        self.errors = []
+        self.waiting = []        # futures the asynchronous handlers are waiting on
+        self.handlers = []       # every RequestHandler instance created: counters
+
+    def start_request(self, server_conn, request_conn):
+        return WrapMsg(self, request_conn, self.app.start_request(server_conn, request_conn))
+
+    def on_close(self, server_conn):
+        self.app.on_close(server_conn)
+
+
+def make_app(wrap_holder, style):
+    """A tornado.web.Application whose single handler answers every generated method with an empty
+    200; style 'sync' | 'async' (awaits a harness future before answering) | 'stream'
+    (@stream_request_body, answers after the body)."""
+    from tornado import web
+    from tornado.concurrent import Future
+
+    class Base(web.RequestHandler):
+        def initialize(self):
+            # every method the wire names is "supported" (the reader, not the routing, is under test)
+            self.SUPPORTED_METHODS = tuple(web.RequestHandler.SUPPORTED_METHODS) + (self.request.method,)
+            self.n_finish = 0
+            self.n_close = 0
+            self.streamed = 0
+            wrap_holder[0].handlers.append(self)
+
+        def on_finish(self):
+            self.n_finish += 1
+
+        def on_connection_close(self):
+            self.n_close += 1
+
+        async def _answer(self):
+            if style == "async":
+                f = Future()
+                wrap_holder[0].waiting.append(f)
+                await f
+            self.set_header("Content-Length", "0")
+            self.finish()
+
+        async def get(self):
+            await self._answer()
+        post = put = delete = head = options = patch = get
+
+        def check_xsrf_cookie(self):
+            pass
+
+        def __getattr__(self, name):
+            req = self.__dict__.get("request")
+            if req is not None and name == req.method.lower():
+                return self.get
+            raise AttributeError(name)
+
+    if style == "stream":
+        @web.stream_request_body
+        class Handler(Base):
+            def data_received(self, chunk):
+                self.streamed += len(chunk)
+    else:
+        Handler = Base
+    return web.Application([(r".*", Handler)])
+
+
 class ServerRun:
     """One connection to a real HTTPServer in one of the application modes."""
 
@@ -139,6 +240,8 @@ class ServerRun:
             kw["max_body_size"] = cfg["maxBody"]
         if cfg.get("decompress"):
             kw["decompress_request"] = True
+        if cfg.get("btimeout"):
+            kw["body_timeout"] = 10
         if chunk_size:
             kw["chunk_size"] = chunk_size
         override = cfg.get("override", NONE)
@@ -146,14 +249,18 @@ class ServerRun:
         self.log.__enter__()
         if mode == "delegate":
             self.rec = Recorder(respond=cfg.get("respond", "sync"),
-                                       override=None if override == NONE else override,
-                                       btimeout=10 if cfg.get("btimeout") else None)
+                                override=None if override == NONE else override)
             self.server = httpserver.HTTPServer(self.rec, **kw)
         elif mode == "callback":
             self.rec = None
             self.server = httpserver.HTTPServer(self._callback, **kw)
+        elif mode.startswith("app-"):
+            holder = [None]
+            self.rec = holder[0] = WrapApp(make_app(holder, mode[4:]))
+            self.server = httpserver.HTTPServer(self.rec, **kw)
         else:
             raise ValueError(mode)
+        self.shutdown_done = None
         self.conn = ServerConn(self.env, self.server)
 
     def _callback(self, request):
@@ -173,7 +280,10 @@ class ServerRun:
 
     def respond(self):
         m = self.rec.waiting.pop(0)
-        m.respond()
+        if isinstance(m, RecMsg):
+            m.respond()
+        else:
+            m.set_result(None)      # the asynchronous RequestHandler continues
         self.env.settle()
         self.conn.stream.pump()
 
@@ -189,7 +299,7 @@ class ServerRun:
 
     # -- projection -----------------------------------------------------------------------
     def proj(self):
-        if self.mode == "delegate":
+        if self.mode != "callback":
             msgs = [m.proj() for m in self.rec.order]
         else:
             msgs = list(self.requests)
@@ -197,15 +307,23 @@ class ServerRun:
         raw = self.conn.received()
         try:
             for (version, code, reason, headers, body, complete) in split_responses(raw):
+                if code is not None and code != 400 and self.mode.startswith("app-"):
+                    code = 200          # which status the web application chose is not the reader's business
                 out.append(code if code is not None else "garbage")
         except Exception:
             out.append("unparsable")
         logs = sorted(set((n, l) for (n, l, m, exc) in self.log.records
-                          if getattr(logging, l) >= logging.WARNING or n == "tornado.application"))
+                          if n != "tornado.access" and (getattr(logging, l) >= logging.WARNING or n == "tornado.application")))
         errs = [type(c.get("exception")).__name__ for c in self.env.loop.uncaught]
         if self.rec is not None:
             errs += self.rec.errors
         errs += [type(e).__name__ for e in self.conn.stream.handler_errors]
+        if self.shutdown_done is False:
+            errs.append("close_all_connections did not complete")
+        if self.mode.startswith("app-"):
+            for h in self.rec.handlers:      # RequestHandler.on_finish at most once
+                if h.n_finish > 1:
+                    errs.append("on_finish x%d" % h.n_finish)
         return {"msgs": msgs, "out": out, "closed": self.conn.closed(),
                 "logs": [list(x) for x in logs], "errors": errs}
 
@@ -400,3 +518,64 @@ def explain(traces, scratch=None):
         out.setdefault(int(m.group(1)), {})[int(m.group(2))] = json.loads(js)
     os.remove(fn)
     return out
+
+
+# ----------------------------------------------------------------------------------------------
+# C05: behaviour trees (GenT_HttpReader)
+
+def tree_scenarios(tree):
+    """Every root-to-event path of a GenT tree as a list of steps:
+    ("arrive", upto_k, [trail entries]) | ("eof" | "timeout" | "shutdown" | "respond", entry)."""
+    def rec(nodes, prefix, k0):
+        arrs = []
+        for node in nodes:
+            k = node["k"]
+            if k > k0:
+                arrs = arrs + [node["arr"]]
+            reach = prefix + ([("arrive", k, arrs)] if k > k0 else [])
+            yield reach + [("eof", node["eof"])]
+            for e in node["tmo"]:
+                yield reach + [("timeout", e)]
+            for e in node["shut"]:
+                yield reach + [("shutdown", e)]
+            for rp in node["resp"]:
+                step = ("respond", rp["ent"])
+                if not rp["sub"]:
+                    yield reach + [step]
+                else:
+                    for x in rec(rp["sub"], reach + [step], k):
+                        yield x
+    return rec(tree, [], 0)
+
+
+def run_scenario(cfg, wire, steps, mode, env=None):
+    run = ServerRun(cfg, mode=mode, env=env)
+    try:
+        exp = Expect()
+        pos = 0
+        for i, st in enumerate(steps):
+            if st[0] == "arrive":
+                run.arrive(wire[pos:st[1]])
+                pos = st[1]
+                for e in st[2]:
+                    exp.apply(e)
+            else:
+                if st[0] == "eof":
+                    run.eof()
+                elif st[0] == "timeout":
+                    run.timeout()
+                elif st[0] == "shutdown":
+                    run.shutdown()
+                elif st[0] == "respond":
+                    if not run.rec.waiting:
+                        return {"step": i, "act": "respond", "fed": pos, "why": "not-waiting", "exp": exp_json(exp),
+                                "obs": run.proj()}
+                    run.respond()
+                exp.apply(st[1])
+            obs = run.proj()
+            why = compare_server(exp, obs)
+            if why:
+                return {"step": i, "act": st[0], "fed": pos, "why": why, "exp": exp_json(exp), "obs": obs}
+        return None
+    finally:
+        run.close()
